@@ -46,6 +46,7 @@ type FuncContract struct {
 	Props     []string // property ids this contract serves (prop C10,C23)
 	InlineMax int
 	AtCall    map[string][]Clause
+	DeadPaths int // number of path conditions the contracts make infeasible (reviewed)
 }
 
 func (c *FuncContract) Key() string { return c.Pkg + "." + c.Name }
@@ -79,7 +80,7 @@ func NewContractSet() *ContractSet {
 
 var clauseKW = map[string]bool{"requires": true, "ensures": true, "modifies": true, "loop": true, "lock-balanced": true,
 	"terminates": true, "thin": true, "nopanic": true, "mode": true, "params": true, "prop": true, "pure": true, "noinline": true, "trusted": true,
-	"at-call": true, "nodeadlock": true, "inline-all": true}
+	"at-call": true, "nodeadlock": true, "inline-all": true, "dead-paths": true}
 
 // ParseContractFile reads //@ lines. pkgPath is the package the file belongs to ("" for dep files,
 // which must then use full names "pkgpath.Func").
@@ -289,6 +290,12 @@ func (cs *ContractSet) ParseContractFile(path, pkgPath string) error {
 					cur.AtCall = map[string][]Clause{}
 				}
 				cur.AtCall[f[1]] = append(cur.AtCall[f[1]], c)
+			case "dead-paths":
+				n, err := strconv.Atoi(rest)
+				if err != nil {
+					return fmt.Errorf("%s:%d: dead-paths <n>", path, l.n)
+				}
+				cur.DeadPaths = n
 			case "mode":
 				cur.Mode = rest
 			case "params":
